@@ -49,8 +49,8 @@ type c34Stream struct {
 // negWindowNote: bfe_http2 flow.add computes "(1<<31-1) - f.n" in int32, which overflows
 // whenever the window f.n is negative (legal after the peer lowered
 // SETTINGS_INITIAL_WINDOW_SIZE, RFC 7540 6.9.2). Every WINDOW_UPDATE for such a stream is
-// then answered with RST_STREAM(FLOW_CONTROL_ERROR) and a SETTINGS increase with
-// GOAWAY(FLOW_CONTROL_ERROR). C34 is a safety statement about the DATA the server sends
+// then answered with RST_STREAM(FLOW_CONTROL_ERROR) and any further SETTINGS carrying
+// INITIAL_WINDOW_SIZE with GOAWAY(FLOW_CONTROL_ERROR). C34 is a safety statement about the DATA the server sends
 // and says nothing about accepting credit, so these two reactions are tolerated (and
 // counted as classes) instead of being reported under C34; everything the server sends
 // before and after is still checked.
@@ -64,8 +64,8 @@ type c34Conn struct {
 	byID    map[uint32]*c34Stream
 	binding map[string]bool
 	trace   []string
-	// incWithNeg: an INITIAL_WINDOW_SIZE increase was sent while a live stream may have
-	// had a negative window (GOAWAY(FLOW_CONTROL_ERROR) tolerated, see negWindowNote)
+	// incWithNeg: a further INITIAL_WINDOW_SIZE setting was sent while a live stream may
+	// have had a negative window (GOAWAY(FLOW_CONTROL_ERROR) tolerated, see negWindowNote)
 	incWithNeg     bool
 	negWURejected  bool
 	negIncRejected bool
@@ -407,10 +407,12 @@ func c34Run(rt *rapid.T, rec *ev.Rec) {
 					if s.ended || s.clientReset || s.srvRST {
 						continue
 					}
+					if s.maybeNeg {
+						// any INITIAL_WINDOW_SIZE (even an unchanged value) hits flow.add
+						c.incWithNeg = true
+					}
 					if ns.iws < snap.iws {
 						s.maybeNeg = true
-					} else if ns.iws > snap.iws && s.maybeNeg {
-						c.incWithNeg = true
 					}
 				}
 			})
